@@ -64,6 +64,9 @@ def build(seed, tier):
     family = None
     if r.random() < 0.4:
         family = grd_pool.FAMILIES[r.choice(sorted(grd_pool.FAMILIES))]
+    sub_family = None
+    if r.random() < 0.3:
+        sub_family = grd_pool.SUB_FAMILIES[r.choice(sorted(grd_pool.SUB_FAMILIES))]
     for i in range(n):
         if gradings and r.random() < 0.25:
             g = dict(r.choice(gradings))       # forced repeat of an earlier (script, submission, env, fault)
@@ -71,7 +74,7 @@ def build(seed, tier):
                 g['submission_name'] = r.choice(subs)      # same script over another student, as the pipelines do
         else:
             g = {'script_name': r.choice(family) if family and r.random() < 0.75 else r.choice(scripts),
-                 'submission_name': r.choice(subs),
+                 'submission_name': r.choice(sub_family) if sub_family and r.random() < 0.75 else r.choice(subs),
                  'env': r.choice(['standard', 'standard', 'standard', 'blockpy', 'blockpy', 'terminal', 'terminal', 'gradescope']),
                  'rng': r.randint(1, 10 ** 6)}
             if rf.random() < 0.3:
